@@ -14,6 +14,12 @@ claimed = {
  "C12": dict(text="Bounded model checking: (1) WorkflowKeyAvailability is executed on a fully symbolic key string (every length 1..60, all byte values); z3 enumerates the accepted keys from the generated switch and on each path the returned context / special-function sets must equal the committed copy of GitHub's table, and be empty for every other string. (2) At every scalar position of a skeleton using every key of the syntax, each of the 12 contexts and 5 special functions is written with a symbolic letter case (all 2^n spellings in one path) in 5 / 4 embeddings through the real lexer, parser, semantic checker and rule; `not allowed here` must be reported iff the table row of the longest matching workflow-key prefix of that position does not list the name.",
              note="Trusted: z3 verdicts; gosx semantics; spec/availability_table.md (copied from the documentation snapshot) and the position-to-key rule `longest table key that prefixes the generalised syntax path`. `jobs` outside workflow_call outputs is reported as undefined variable (accepted as a report). deprecated-commands rule is excluded (regexp on symbolic text).",
              tech="symbolic execution of go/ssa + SMT (z3): symbolic table key; symbolic letter case at every syntax position", ref="§5 C12, Appendix C"),
+ "C01": dict(text="Bounded model checking of the no-panic / termination claim for everything behind the YAML library: the real lexer+parser+semantic checker on every byte string up to the bound, the glob validators on every byte string, each of the 19 scalar/section decoders of parse.go on one arbitrary YAML node (symbolic kind, tag text, style, value bytes, children), the whole parser with one arbitrary node substituted at every position of a full skeleton workflow, and the snippet renderer with 64-bit symbolic line/column against arbitrary source bytes. Every Go runtime panic site and every explicit panic on a feasible path is a violation (the solver supplies the input), an exceeded instruction budget is a candidate hang.",
+             note="Trusted: z3 verdicts; gosx semantics (native cross-validation per run); contract stubs for strconv.ParseFloat (special forms exact), runewidth, regexp on symbolic text. Outside: bytes->yaml.Node, reflection-driven decoding of the other three input channels, exit status. Bounds: expression/glob length <= 3 quick / 4 thorough; node value <= 3 bytes; one injected node.",
+             tech="symbolic execution of go/ssa + SMT (z3): all panic sites as obligations, instruction budget as unwinding check", ref="§5 C01"),
+ "C04": dict(text="Bounded model checking at token level: the real ExprParser runs on a stub lexer handing out N tokens of symbolic kind (20 kinds) and END; on every feasible path z3 must refute `accepted xor D[Or][0][N]` where D is the bounded CYK table of the documented grammar (Appendix A.2) built as circuit-style terms over the same symbolic kinds - on reject paths the kinds after the error are unconstrained, so the solver proves that no completion is a sentence. Accepted trees are compared with a reference precedence parser modulo re-association within one level; the error offset lies within the input. Native replay renders the kinds to source text and goes through the real lexer.",
+             note="Trusted: z3 verdicts; gosx semantics; the grammar of Appendix A.2; the stub lexer contract (token text depends on kind only; kind names stubbed). Byte-level lexing (numbers, strings, identifiers, whitespace) is not part of this check yet. Bounds: N <= 5 quick / 6 thorough.",
+             tech="symbolic execution of go/ssa + SMT (z3): symbolic token kinds against a bounded CYK formula", ref="§5 C04, Appendix A.2"),
 }
 pending_reason = "check under construction in this session: no registered command yet"
 na = {}
